@@ -44,7 +44,7 @@ func vfH_C12_Alloc() {
 	k := vfChunkOf(a, out, nb)
 	vfAssert(k >= bi, "C12.inside-a-chunk-not-before-the-bump-chunk")
 	if k >= 0 {
-		off := vfOff(out)
+		off := vfOff(out) - vfOff(a.buffers[k]) // offset inside the chunk
 		vfAssert(off+uint64(sz) <= uint64(len(a.buffers[k])), "C12.inside-chunk")
 		if k == bi {
 			vfAssert(off >= pi, "C12.above-previous-allocations")
